@@ -64,7 +64,9 @@ def styles(rnd, case: dict) -> dict:
     if rnd.random() < 0.5:
         # keywords written in another order than the parameters are declared: checking follows the declaration
         c["kw_order"] = rnd.sample(names, len(names))
-    return c
+    # hints as forward references resolved at the first call; half of them after a call made while they were unresolvable
+    from harness import impl as _I
+    return _I.maybe_lazy(rnd, c, 0.2)
 
 
 def run(tier: str, seed: int, rep: Report, model: Model) -> dict:
